@@ -34,7 +34,7 @@ func init() {
 			"wall-clock limits (30 s to observe a probe/sentinel, 60 s per call) only ever make a run inconclusive",
 			"race freedom is what the Go race detector reports on the executions produced (GORACE log, report blocks counted)",
 		},
-		Require: []string{"testdrv_histories", "testdrv_relistens", "testdrv_histories_with_differing_listener_options", "testdrv_sysex_sends", "mc_listento_sysex_lengths_swept", "mc_out_reopened_at_once", "mc_out_closed_right_after_send", "mc_reaping_checks", "stop_called_by_listener_probes", "testdrv_sends_before_first_listen", "testdrv_sends_closed", "testdrv_deliveries",
+		Require: []string{"testdrv_histories", "testdrv_relistens", "testdrv_histories_with_differing_listener_options", "testdrv_sysex_sends", "mc_listento_sysex_lengths_swept", "mc_listento_dumps_of_32KiB_and_more", "mc_out_reopened_at_once", "mc_out_closed_right_after_send", "mc_reaping_checks", "stop_called_by_listener_probes", "testdrv_sends_before_first_listen", "testdrv_sends_closed", "testdrv_deliveries",
 			"mc_histories", "mc_deliveries", "mc_overlapping_sends", "mc_exactly_once_checks", "mc_stop_stamp_checks", "mc_porcupine_histories", "mc_relistens", "mc_stops_with_traffic_in_flight", "open_unstartable_probes", "helper_dies_probes", "mc_slow_callback_stops", "close_with_traffic_probes", "mc_opens_from_dying_thread", "mc_listento_deliveries", "mc_dumps_sent_by_concurrent_senders", "mc_bursts_behind_slow_callback"},
 		Workers: 8,
 		UsesCur: true,
